@@ -22,7 +22,7 @@ import (
 
 func TestMain(m *testing.M) { harness.Main(m) }
 
-const rule = "C20: model v1 from the schemagen grammar (C03 kinds and tags) plus index / named index / composite index / uniqueIndex / unique / check / named check / size / not null tags; history migrate(v1) -> Create 0-5 rows -> migrate(v1) -> migrate(v2 = v1 + 0-3 added nullable or constant-defaulted fields or embedded structs + indexes / checks added to existing fields) -> read back -> Create v2 records; non-trivial = v1 carries at least one index / constraint / default / size / not null tag and at least one row, and v2 adds at least one element; distinct = v1 + v2 schema + rows"
+const rule = "C20: model v1 from the schemagen grammar (C03 kinds and tags) plus index / named index (also named like a column, several per field) / composite index / uniqueIndex / unique / check / named check / size / not null tags; history migrate(v1) -> Create 0-5 rows -> migrate(v1) -> migrate(v2 = v1 + 0-3 added nullable or constant-defaulted fields or embedded structs + indexes / checks added to existing fields) -> read back -> Create v2 records; non-trivial = v1 carries at least one index / constraint / default / size / not null tag and at least one row, and v2 adds at least one element; distinct = v1 + v2 schema + rows"
 
 const table = "t_c20"
 
@@ -111,12 +111,19 @@ func (c *caseT) classes() []string {
 		for _, l := range m.Leaves {
 			s := l.Spec
 			set[v+":kind-group:"+l.Kind.Group] = true
-			if s.Index != "" {
-				idx := s.Index
+			for n, idx := range strings.Split(s.Index, ";") {
+				if idx == "" {
+					continue
+				}
 				if strings.HasPrefix(idx, "index:idx") {
 					idx = "index:<name>"
+				} else if strings.HasPrefix(idx, "index:") && !strings.HasPrefix(idx, "index:,") {
+					idx = "index:<name of a column>"
 				}
 				set[v+":tag:"+idx] = true
+				if n > 0 {
+					set[v+":tag:several indexes on one field"] = true
+				}
 			}
 			if s.Unique {
 				set[v+":tag:unique"] = true
@@ -510,4 +517,211 @@ func TestC20WitnessUniqueNameCollision(t *testing.T) {
 	v2 := v1()
 	v2.Fields = append(v2.Fields, &sg.FieldSpec{Name: "Age", Kind: sg.KInt})
 	witness(t, v1(), v2, []string{"field Age"})
+}
+
+// ---- foreign keys: a belongs-to relation and the two Config switches -----------------------------
+//
+// reflect.StructOf types are bound to their table with db.Table(name), which gorm's
+// dependency ordering applies to the related model too; the relation family therefore
+// uses static model types with TableName methods. The space is small and enumerated.
+
+type relOwner struct {
+	ID   uint
+	Name string
+}
+
+func (relOwner) TableName() string { return "c20_owners" }
+
+// v1 without the relation: owner_id is a plain column
+type relOrderPlain struct {
+	ID      uint
+	Marker  int64
+	Number  string `gorm:"index"`
+	OwnerID uint
+}
+
+func (relOrderPlain) TableName() string { return "c20_orders" }
+
+// v1 with the relation
+type relOrderRel struct {
+	ID      uint
+	Marker  int64
+	Number  string `gorm:"index"`
+	OwnerID uint
+	Owner   *relOwner
+}
+
+func (relOrderRel) TableName() string { return "c20_orders" }
+
+// v2: relation plus an added field
+type relOrderV2 struct {
+	ID      uint
+	Marker  int64
+	Number  string `gorm:"index"`
+	OwnerID uint
+	Owner   *relOwner
+	Note    string `gorm:"default:'n/a'"`
+}
+
+func (relOrderV2) TableName() string { return "c20_orders" }
+
+type relCase struct {
+	Disable bool `json:"DisableForeignKeyConstraintWhenMigrating"`
+	Ignore  bool `json:"IgnoreRelationshipsWhenMigrating"`
+	V1Rel   bool `json:"v1_has_relation"`
+	Rows    int  `json:"rows"`
+}
+
+func (c relCase) String() string {
+	v1 := "v1 without relation"
+	if c.V1Rel {
+		v1 = "v1 with belongs-to"
+	}
+	return fmt.Sprintf("DisableForeignKeyConstraintWhenMigrating=%v IgnoreRelationshipsWhenMigrating=%v %s rows=%d -> v2 = belongs-to + added field", c.Disable, c.Ignore, v1, c.Rows)
+}
+
+func ordersDDL(d *testdb.DB) string {
+	var s string
+	_ = d.SQL.QueryRow("SELECT sql FROM sqlite_master WHERE type='table' AND name='c20_orders'").Scan(&s)
+	return s
+}
+
+func (c relCase) run() string {
+	cfg := gorm.Config{DisableForeignKeyConstraintWhenMigrating: c.Disable, IgnoreRelationshipsWhenMigrating: c.Ignore}
+	d := testdb.Open(testdb.Options{Config: cfg})
+	defer d.Close()
+	var v1 interface{} = &relOrderPlain{}
+	if c.V1Rel {
+		v1 = &relOrderRel{}
+	}
+	wantFK := !c.Disable && !c.Ignore
+	noDDL := func(stage string) string {
+		for _, e := range d.Rec.Statements() {
+			if schemaChanging(e.Text) {
+				return stage + " sent a schema-changing statement: " + e.Text
+			}
+		}
+		return ""
+	}
+	fkState := func(stage string, relationDeclared bool) string {
+		has := strings.Contains(strings.ToUpper(ordersDDL(d)), "FOREIGN KEY")
+		if has && !(wantFK && relationDeclared) {
+			return stage + ": the table has a foreign key although the configuration forbids it (or no relation is declared): " + ordersDDL(d)
+		}
+		if !has && wantFK && relationDeclared {
+			return stage + ": the foreign key of the belongs-to relation is missing: " + ordersDDL(d)
+		}
+		return ""
+	}
+	if err := d.DB.AutoMigrate(v1); err != nil {
+		return "migrate(v1) failed: " + err.Error()
+	}
+	if msg := fkState("after migrate(v1)", c.V1Rel); msg != "" {
+		return msg
+	}
+	for i := 0; i < c.Rows; i++ {
+		// owner 7 lives elsewhere (foreign keys are not enforced by this connection)
+		if err := d.DB.Create(&relOrderPlain{Marker: int64(1001 + i), Number: fmt.Sprintf("A-%d", i), OwnerID: 7}).Error; err != nil {
+			return "insert failed: " + err.Error()
+		}
+	}
+	rowsDump := func() string {
+		rows, err := d.SQL.Query("SELECT id, marker, number, owner_id FROM c20_orders ORDER BY marker")
+		if err != nil {
+			return "error: " + err.Error()
+		}
+		defer rows.Close()
+		var sb strings.Builder
+		for rows.Next() {
+			var id, mk, owner int64
+			var num string
+			_ = rows.Scan(&id, &mk, &num, &owner)
+			fmt.Fprintf(&sb, "%d|%d|%s|%d;", id, mk, num, owner)
+		}
+		return sb.String()
+	}
+	data1 := rowsDump()
+	schema1, _ := dumpSchema(d)
+	d.Rec.Reset()
+	if err := d.DB.AutoMigrate(v1); err != nil {
+		return "second migrate(v1) failed: " + err.Error()
+	}
+	if msg := noDDL("second migrate(v1)"); msg != "" {
+		return msg
+	}
+	if s, _ := dumpSchema(d); s != schema1 {
+		return "second migrate(v1) changed the schema:\n before: " + schema1 + " after: " + s
+	}
+	if err := d.DB.AutoMigrate(&relOrderV2{}); err != nil {
+		return "migrate(v2) failed: " + err.Error()
+	}
+	if msg := fkState("after migrate(v2)", true); msg != "" {
+		return msg
+	}
+	if !d.DB.Migrator().HasColumn(&relOrderV2{}, "Note") {
+		return "after migrate(v2): column note does not exist"
+	}
+	if got := rowsDump(); got != data1 {
+		return "migrate(v2) changed existing cells: before " + data1 + " after " + got
+	}
+	// the incremental result has the same foreign keys as a fresh create of v2
+	fresh := testdb.Open(testdb.Options{Config: cfg})
+	err := fresh.DB.AutoMigrate(&relOrderV2{})
+	freshFK := strings.Contains(strings.ToUpper(ordersDDL(fresh)), "FOREIGN KEY")
+	fresh.Close()
+	if err != nil {
+		return "fresh migrate(v2) failed: " + err.Error()
+	}
+	if incFK := strings.Contains(strings.ToUpper(ordersDDL(d)), "FOREIGN KEY"); incFK != freshFK {
+		return fmt.Sprintf("incremental migration and fresh create disagree about the foreign key: incremental %v, fresh %v (%s)", incFK, freshFK, ordersDDL(d))
+	}
+	schema2, _ := dumpSchema(d)
+	d.Rec.Reset()
+	if err := d.DB.AutoMigrate(&relOrderV2{}); err != nil {
+		return "second migrate(v2) failed: " + err.Error()
+	}
+	if msg := noDDL("second migrate(v2)"); msg != "" {
+		return msg
+	}
+	if s, _ := dumpSchema(d); s != schema2 {
+		return "second migrate(v2) changed the schema:\n before: " + schema2 + " after: " + s
+	}
+	rec := relOrderV2{Marker: 2001, Number: "B-1", OwnerID: 8}
+	if err := d.DB.Create(&rec).Error; err != nil {
+		return "Create of a v2 record failed: " + err.Error()
+	}
+	var got relOrderV2
+	if err := d.DB.First(&got, rec.ID).Error; err != nil || got.Marker != 2001 || got.Number != "B-1" || got.OwnerID != 8 || got.Note != "n/a" {
+		return fmt.Sprintf("v2 record does not round-trip: %+v (%v)", got, err)
+	}
+	return ""
+}
+
+func TestC20Relations(t *testing.T) {
+	if harness.ReplayPath() != "" {
+		var c relCase
+		if err := harness.LoadReplay(&c); err != nil {
+			t.Fatalf("cannot load replay: %v", err)
+		}
+		if msg := c.run(); msg != "" {
+			t.Fatalf("C20 violated: %s\n  case: %s", msg, c)
+		}
+		return
+	}
+	for _, disable := range []bool{false, true} {
+		for _, ignore := range []bool{false, true} {
+			for _, v1rel := range []bool{false, true} {
+				for _, rows := range []int{0, 2} {
+					c := relCase{disable, ignore, v1rel, rows}
+					cls := []string{fmt.Sprintf("relations:disable-fk=%v,ignore-relationships=%v", disable, ignore), fmt.Sprintf("relations:v1-has-relation=%v", v1rel)}
+					evid.Journal(c.String())
+					evid.Case("relations: "+c.String(), rows > 0, nil, cls...)
+					if msg := c.run(); msg != "" {
+						harness.SaveCase("TestC20Relations", c)
+						t.Errorf("C20 violated: %s\n  case: %s", msg, c)
+					}
+				}
+			}
+		}
+	}
 }
